@@ -112,6 +112,19 @@ class _Canon(ast.NodeTransformer):
                 return ast.copy_location(ast.AugAssign(target=t, op=node.value.op, value=node.value.right), node)
         return node
 
+    def visit_Attribute(self, node):
+        self.generic_visit(node)
+        # io.SEEK_SET / SEEK_CUR / SEEK_END (also os.*)  ->  0 / 1 / 2
+        if isinstance(node.value, ast.Name) and node.value.id in ('io', 'os') and node.attr in ('SEEK_SET', 'SEEK_CUR', 'SEEK_END') and isinstance(node.ctx, ast.Load):
+            return ast.copy_location(ast.Constant(value={'SEEK_SET': 0, 'SEEK_CUR': 1, 'SEEK_END': 2}[node.attr]), node)
+        return node
+
+    def visit_Name(self, node):
+        # from io import SEEK_END ... the bare names of the seek constants
+        if isinstance(node.ctx, ast.Load) and node.id in ('SEEK_SET', 'SEEK_CUR', 'SEEK_END'):
+            return ast.copy_location(ast.Constant(value={'SEEK_SET': 0, 'SEEK_CUR': 1, 'SEEK_END': 2}[node.id]), node)
+        return node
+
     def visit_Compare(self, node):
         self.generic_visit(node)
         # a < b < c  ->  a < b and b < c      (the middle operands are names / constants / attribute or subscript chains of names:
@@ -559,18 +572,23 @@ class _PureLocals:
             i += 1
             stack.extend(reversed(list(ast.iter_child_nodes(n))))
         stores, loads, nested = {}, {}, set()
+        not_lambda_only = set()   # names captured by a nested scope other than as a plain read inside a lambda
         attr_stores = {}
         parent = {}
         for p in ast.walk(fn):
             for ch in ast.iter_child_nodes(p):
                 parent[id(ch)] = p
 
-        def scan(node, in_nested):
+        def scan(node, in_nested, in_lambda=False):
             for ch in ast.iter_child_nodes(node):
                 nest = in_nested or isinstance(ch, (ast.FunctionDef, ast.AsyncFunctionDef, ast.Lambda, ast.ClassDef, ast.ListComp, ast.SetComp, ast.DictComp, ast.GeneratorExp))
+                lam = (in_lambda or isinstance(ch, ast.Lambda)) and not isinstance(ch, (ast.FunctionDef, ast.AsyncFunctionDef, ast.ClassDef, ast.ListComp, ast.SetComp, ast.DictComp, ast.GeneratorExp)) \
+                    and (in_lambda or not in_nested)
                 if isinstance(ch, ast.Name):
                     if nest:
                         nested.add(ch.id)
+                        if not (lam and isinstance(ch.ctx, ast.Load)):
+                            not_lambda_only.add(ch.id)
                     (loads if isinstance(ch.ctx, ast.Load) else stores).setdefault(ch.id, []).append(ch)
                 elif isinstance(ch, ast.Attribute) and not isinstance(ch.ctx, ast.Load):
                     attr_stores.setdefault(ch.attr, []).append(ch)
@@ -578,8 +596,11 @@ class _PureLocals:
                     nested.update(ch.names)
                 elif isinstance(ch, ast.ExceptHandler) and ch.name:
                     stores.setdefault(ch.name, []).append(ch)
-                scan(ch, nest)
+                elif isinstance(ch, ast.arg) and in_nested:
+                    not_lambda_only.add(ch.arg)
+                scan(ch, nest, lam)
         scan(fn, False)
+        lambda_only = nested - not_lambda_only
 
         def loops_of(n):
             out = []
@@ -588,7 +609,7 @@ class _PureLocals:
                 if isinstance(n, (ast.For, ast.While, ast.AsyncFor)):
                     out.append(id(n))
             return out
-        single = {n for n, ss in stores.items() if len(ss) == 1 and n not in params and n not in nested}
+        single = {n for n, ss in stores.items() if len(ss) == 1 and n not in params and (n not in nested or n in lambda_only)}
         barriers = []
         for x in ast.walk(fn):
             if isinstance(x, ast.Call):
@@ -653,6 +674,8 @@ class _PureLocals:
             read_attrs = {x.attr for x in ast.walk(v) if isinstance(x, ast.Attribute)}
             ok = True
             volatile = not all(self._binding_stable(e) for e in probe) and any(isinstance(x, ast.Attribute) or isinstance(x, (ast.In, ast.NotIn)) for e in probe for x in ast.walk(e))
+            if name in lambda_only and (volatile or kwdict is not None):
+                continue   # read later, when the lambda runs: only a value that cannot change may be moved into it
             for u in uses:
                 upos = order[id(u)]
                 if upos < dpos or loops_of(u) != loops_of(st) and not set(loops_of(st)) <= set(loops_of(u)):
@@ -986,6 +1009,32 @@ class _UnrollLiteralLoops:
         return tree
 
 
+class _SplitTupleAssign:
+    """a, b = X, Y   ->   a = X ; b = Y      when all targets are plain names, none of them occurs in X or Y, and X, Y are free of
+    calls except in the last position (evaluation order of effects is kept: X is evaluated before Y either way, stores happen after)."""
+
+    def run(self, tree):
+        for n in ast.walk(tree):
+            for f in ('body', 'orelse', 'finalbody'):
+                b = getattr(n, f, None)
+                if not (isinstance(b, list) and b and isinstance(b[0], ast.stmt)):
+                    continue
+                i = 0
+                while i < len(b):
+                    st = b[i]
+                    if isinstance(st, ast.Assign) and len(st.targets) == 1 and isinstance(st.targets[0], ast.Tuple) and isinstance(st.value, ast.Tuple) \
+                            and len(st.targets[0].elts) == len(st.value.elts) and all(isinstance(t, ast.Name) for t in st.targets[0].elts):
+                        names = {t.id for t in st.targets[0].elts}
+                        used = {x.id for v in st.value.elts for x in ast.walk(v) if isinstance(x, ast.Name)}
+                        if not (names & used):
+                            new = [ast.copy_location(ast.Assign(targets=[t], value=v), st) for t, v in zip(st.targets[0].elts, st.value.elts)]
+                            b[i:i + 1] = new
+                            i += len(new)
+                            continue
+                    i += 1
+        return tree
+
+
 class _StoreThroughTemp:
     """t = E(self.a) ; self.a = t   ->   self.a = E(self.a) ; t = self.a       (t a local stored once in its function)
     The attribute is updated through a temporary that is then used in its place; afterwards the pure-local propagation
@@ -1028,6 +1077,7 @@ def canonicalise(tree):
         tree = _UnrollLiteralLoops().run(tree)
         tree = _StoreThroughTemp().run(tree)
         tree = _PureLocals().run(tree)
+        tree = _SplitTupleAssign().run(tree)
         tree = _StmtIfExp().run(tree)
         tree = _CompToLoop().run(tree)
         tree = _ForwardSubst().run(tree)
